@@ -384,6 +384,7 @@ def run(ctx) -> list[Inst]:
     insts += _file_layer(ctx)
     insts += _stale_locals(ctx)
     insts += _positional_keys(ctx)
+    insts += _discriminator_keys(ctx)
     insts += _signature_args(ctx)
     insts += _templates(ctx)
     return insts
@@ -658,6 +659,77 @@ def _positional_keys(ctx) -> list[Inst]:
     return insts
 
 
+def _discriminator_keys(ctx) -> list[Inst]:
+    """(xi) a record whose keys are iterated wholesale as DATA (`for field, ids in entry.items()`) must not still
+    contain a key the reader has used as a discriminator (`entry['metaconcept']`): the discriminator is removed
+    first (pop / del) or skipped inside the loop - otherwise it is processed as one more field."""
+    prog = ctx.prog
+    insts = []
+    readers = [('Model._from_dict', ('C07',)), ('AttackGraph._from_dict', ('C10',)),
+               ('load_model_from_version_0_0_39._process_model', ('C18',))]
+    for fname, props in readers:
+        if not prog.has_func(fname):
+            continue
+        f0 = prog.func(fname)
+        group = [f0] + [g for g in prog.all_funcs() if g.short.startswith(f0.short + '.')]
+        for f in group:
+            cfg = ctx.cfg(f)
+            rel = f.module.relpath
+            for h in [n for n in cfg.nodes if n.kind == 'for']:
+                it = h.ast.iter
+                X = None
+                if isinstance(it, ast.Call) and isinstance(it.func, ast.Attribute) and it.func.attr in ('items', 'keys') \
+                        and isinstance(it.func.value, ast.Name):
+                    X = it.func.value.id
+                elif isinstance(it, ast.Name):
+                    X = it.id
+                if X is None:
+                    continue
+                # is the loop variable used as a field name (setattr / getattr / subscript store)? then keys are data
+                tnames = []
+                cfg._targets(h.ast.target, tnames)
+                keyvar = tnames[0] if tnames else None
+                uses_as_field = any(isinstance(c, ast.Call) and isinstance(c.func, ast.Name) and c.func.id == 'setattr'
+                                    and len(c.args) >= 2 and isinstance(c.args[1], ast.Name) and c.args[1].id == keyvar
+                                    for c in ast.walk(h.ast))
+                if not uses_as_field:
+                    continue
+                reads, removed, skipped = {}, set(), set()
+                for n in own_nodes(f.node):
+                    if isinstance(n, ast.Subscript) and isinstance(n.ctx, ast.Load) and isinstance(n.value, ast.Name) \
+                            and n.value.id == X and isinstance(n.slice, ast.Constant) and isinstance(n.slice.value, str):
+                        nd = cfg.owner(n)
+                        if nd is not None and cfg.dominates(nd, h) and nd is not h:
+                            reads[n.slice.value] = n
+                    if isinstance(n, ast.Call) and isinstance(n.func, ast.Attribute) and n.func.attr == 'pop' \
+                            and isinstance(n.func.value, ast.Name) and n.func.value.id == X and n.args \
+                            and isinstance(n.args[0], ast.Constant):
+                        removed.add(n.args[0].value)
+                    if isinstance(n, ast.Delete):
+                        for t in n.targets:
+                            if isinstance(t, ast.Subscript) and isinstance(t.value, ast.Name) and t.value.id == X \
+                                    and isinstance(t.slice, ast.Constant):
+                                removed.add(t.slice.value)
+                for c in ast.walk(h.ast):
+                    if isinstance(c, ast.Compare) and isinstance(c.left, ast.Name) and c.left.id == keyvar:
+                        for cmp_ in c.comparators:
+                            for k_ in ast.walk(cmp_):
+                                if isinstance(k_, ast.Constant) and isinstance(k_.value, str):
+                                    skipped.add(k_.value)
+                construct = f'(xi) {fname}: keys of {X} iterated as fields exclude its discriminator'
+                bad = [k for k in reads if k not in removed and k not in skipped]
+                if bad:
+                    insts.append(Inst(
+                        RULE, fname, construct, 'violation',
+                        msg=(f"'{stmt_text(reads[bad[0]])}' reads the key '{bad[0]}' of {X} and leaves it in place; the loop "
+                             f"'for {stmt_text(h.ast.target)} in {stmt_text(it)}' then treats every key as a field name, "
+                             f"'{bad[0]}' included (an entry in the flat layout makes the loader fail / set a bogus field)"),
+                        file=rel, line=reads[bad[0]].lineno, props=props))
+                else:
+                    insts.append(Inst(RULE, fname, construct, 'ok', file=rel, line=h.lineno, props=props))
+    return insts
+
+
 def _signature_args(ctx) -> list[Inst]:
     """(vii-b) get_association_by_signature is asked with the end types the language association DECLARES
     (<assoc>.left_field.asset.name / <assoc>.right_field.asset.name): that is what the sub-entry names are generated
@@ -669,6 +741,47 @@ def _signature_args(ctx) -> list[Inst]:
             continue
         rel = f.module.relpath
         for n in own_nodes(f.node):
+            if isinstance(n, ast.Call) and isinstance(n.func, ast.Attribute) \
+                    and n.func.attr == 'association_exists_between_assets' and n.args and not f.is_method:
+                # the model files associations under the name of their generated CLASS (sub-entry name for
+                # same-named associations), not under the name of the language association
+                a0 = n.args[0]
+                cfg = ctx.cfg(f)
+                node = cfg.owner(n)
+                kind = None
+                if isinstance(a0, ast.Attribute) and a0.attr == '__name__':
+                    kind = 'class'
+                elif isinstance(a0, ast.Name) and node is not None:
+                    for d in cfg.reaching(node, a0.id):
+                        v = getattr(d.ast, 'value', None) if d.kind == 'stmt' else None
+                        if isinstance(v, ast.Call) and isinstance(v.func, ast.Attribute):
+                            if v.func.attr == 'get_association_by_signature':
+                                kind = kind or 'class'
+                            else:
+                                kind = 'other'
+                        elif v is not None:
+                            kind = 'other'
+                elif isinstance(a0, ast.Attribute) and a0.attr == 'name' and isinstance(a0.value, ast.Name) and node is not None:
+                    for d in cfg.reaching(node, a0.value.id):
+                        v = getattr(d.ast, 'value', None) if d.kind == 'stmt' else None
+                        if isinstance(v, ast.Call) and isinstance(v.func, ast.Attribute) \
+                                and v.func.attr == 'get_association_by_fields_and_assets':
+                            kind = 'langname'
+                pr = ('C19', 'C06') if 'neo4j' in rel else (('C18', 'C06') if 'securicad' in rel else ('C05', 'C06'))
+                construct = f'(vii) existing-link test asks for the generated class name: {stmt_text(n, 50)}'
+                if kind == 'langname':
+                    insts.append(Inst(
+                        RULE, f.short, construct, 'violation',
+                        msg=(f"'{stmt_text(a0)}' is the name of the LANGUAGE association; the model indexes associations by "
+                             f"the name of the generated class (for same-named associations '<name>_<left>_<right>'), so "
+                             f"the test never finds the existing link and the mirrored row is added a second time "
+                             f"(DuplicateModelAssociationError)"),
+                        file=rel, line=n.lineno, props=pr))
+                else:
+                    insts.append(Inst(RULE, f.short, construct, 'ok' if kind == 'class' else 'unproven',
+                                      msg='' if kind == 'class' else 'origin of the name not resolved', file=rel,
+                                      line=n.lineno, props=pr))
+                continue
             if not (isinstance(n, ast.Call) and isinstance(n.func, ast.Attribute)
                     and n.func.attr == 'get_association_by_signature' and len(n.args) == 3):
                 continue
